@@ -4,6 +4,7 @@ mod alloc;
 mod auth;
 mod builder;
 mod c07;
+mod c11;
 mod c12;
 mod c19;
 mod c20;
@@ -30,6 +31,7 @@ fn main() {
         "auth-replay" => auth::main(rest),
         "envelope-replay" => envelope::main(rest),
         "c07-replay" => c07::main(rest),
+        "c11-replay" => c11::main(rest),
         "c12-replay" => c12::main(rest),
         "c19-replay" => c19::main(rest),
         "c20-replay" => c20::main(rest),
